@@ -1,12 +1,1039 @@
 package main
 
+// Mode "access" (property C11 b, c; also the lock facts C17 relies on): a static
+// reading of the working tree's synchronisation discipline.
+//
+// For every function of the library's packages it records
+//   - every access to a PLAIN (non-atomic) field of a shared object type (a named
+//     struct that contains a mutex or an atomic cell, directly or through by-value
+//     nesting), as (function, owner type, field, read|write, locks held);
+//   - every lock acquisition made while other locks are held, directly or through
+//     calls (interface calls resolved to every implementing type in scope), as an
+//     edge of the lock-order graph.
+// Locks are named at type level ("circuit.Circuit.notThreadSafeConfigMu"); the
+// lockset at a call site flows into unexported callees (intersection over call
+// sites); a function literal starts with no locks (it may run later, elsewhere).
+// Functions that the source documents as not safe for concurrent use
+// (constructors New*, *NotThreadSafe, UnmarshalJSON, and unexported functions
+// only they call) are marked init.  Everything is conservative in one direction:
+// an access whose locks cannot be established is reported with FEWER locks, which
+// can only make the discipline check fail, never pass wrongly.
+
 import (
+	"encoding/json"
 	"fmt"
+	"go/ast"
+	"go/importer"
+	"go/token"
+	"go/types"
 	"os"
+	"path/filepath"
+	"sort"
+	"strings"
 )
 
-// emitAccess: C11/C17 access tables (built later).
+const modPath = "github.com/cep21/circuit/v4"
+
+var accessDirs = []string{"faststats", "internal/evar", "internal/clock", ".", "closers/hystrix", "closers/simplelogic", "metrics/rolling", "metrics/responsetimeslo", "metriceventstream"}
+var scopeDirs = map[string]bool{"faststats": true, ".": true, "closers/hystrix": true, "closers/simplelogic": true, "metrics/rolling": true, "metrics/responsetimeslo": true, "metriceventstream": true}
+
+type lockMode int
+
+const (
+	modeR lockMode = 1
+	modeW lockMode = 2
+)
+
+type lockset map[string]lockMode
+
+func (l lockset) copy() lockset {
+	r := lockset{}
+	for k, v := range l {
+		r[k] = v
+	}
+	return r
+}
+func meet(a, b lockset) lockset {
+	r := lockset{}
+	for k, v := range a {
+		if w, ok := b[k]; ok {
+			if w < v {
+				v = w
+			}
+			r[k] = v
+		}
+	}
+	return r
+}
+func join(a, b lockset) lockset {
+	r := a.copy()
+	for k, v := range b {
+		if r[k] < v {
+			r[k] = v
+		}
+	}
+	return r
+}
+func (l lockset) list() []heldLock {
+	var out []heldLock
+	for k, v := range l {
+		out = append(out, heldLock{k, v == modeW})
+	}
+	sort.Slice(out, func(i, j int) bool { return out[i].Lock < out[j].Lock })
+	return out
+}
+
+type heldLock struct {
+	Lock string `json:"lock"`
+	Excl bool   `json:"excl"`
+}
+
+type accessRec struct {
+	Func  string     `json:"func"`
+	Owner string     `json:"owner"`
+	Field string     `json:"field"`
+	Write bool       `json:"write"`
+	Locks []heldLock `json:"locks"`
+	Init  bool       `json:"init"`
+	Pos   string     `json:"pos"`
+}
+
+type edgeRec struct {
+	From string `json:"from"`
+	To   string `json:"to"`
+	Func string `json:"func"`
+	Pos  string `json:"pos"`
+}
+
+type callSite struct {
+	callees []string
+	held    lockset
+	pos     token.Pos
+}
+
+type funcInfo struct {
+	key      string
+	decl     *ast.FuncDecl
+	pkg      *pkgInfo
+	exported bool
+	entry    lockset
+	init     bool
+	accesses []accessRec
+	calls    []callSite
+	acquires map[string]token.Pos // locks acquired directly (any mode)
+	acqEdges []edgeRec
+}
+
+type pkgInfo struct {
+	dir   string
+	name  string
+	files []*ast.File
+	tpkg  *types.Package
+	info  *types.Info
+}
+
+type analysis struct {
+	repo    string
+	pkgs    map[string]*pkgInfo // by import path
+	funcs   map[string]*funcInfo
+	order   []string
+	methods map[string][]*funcInfo // by method name, for interface resolution
+	named   []*types.Named
+	assertedFrom map[*types.Var]*types.Interface
+}
+
+type modImporter struct {
+	a   *analysis
+	std types.Importer
+}
+
+func (m modImporter) Import(path string) (*types.Package, error) {
+	if p, ok := m.a.pkgs[path]; ok {
+		return p.tpkg, nil
+	}
+	return m.std.Import(path)
+}
+
+func importPath(dir string) string {
+	if dir == "." {
+		return modPath
+	}
+	return modPath + "/" + dir
+}
+
+func loadAll(repo string) *analysis {
+	a := &analysis{repo: repo, pkgs: map[string]*pkgInfo{}, funcs: map[string]*funcInfo{}, methods: map[string][]*funcInfo{}}
+	std := importer.ForCompiler(fset, "source", nil)
+	for _, dir := range accessDirs {
+		if _, err := os.Stat(filepath.Join(repo, dir)); err != nil {
+			continue
+		}
+		name, files, _ := parseDir(repo, dir)
+		if len(files) == 0 {
+			continue
+		}
+		info := &types.Info{Types: map[ast.Expr]types.TypeAndValue{}, Defs: map[*ast.Ident]types.Object{}, Uses: map[*ast.Ident]types.Object{},
+			Selections: map[*ast.SelectorExpr]*types.Selection{}}
+		conf := types.Config{Importer: modImporter{a, std}, Error: func(err error) {
+			if os.Getenv("ACCESS_DEBUG") != "" {
+				fmt.Fprintln(os.Stderr, "TYPEERR", err)
+			}
+		}}
+		tp, err := conf.Check(importPath(dir), fset, files, info)
+		if err != nil && tp == nil {
+			fmt.Fprintln(os.Stderr, "TRANSLATION FAILURE: cannot type-check", dir, err)
+			os.Exit(3)
+		}
+		a.pkgs[importPath(dir)] = &pkgInfo{dir: dir, name: name, files: files, tpkg: tp, info: info}
+	}
+	return a
+}
+
+// ---------- type predicates ----------
+func isNamed(t types.Type, pkgSuffix, name string) bool {
+	if p, ok := t.(*types.Pointer); ok {
+		t = p.Elem()
+	}
+	n, ok := t.(*types.Named)
+	if !ok || n.Obj().Pkg() == nil {
+		return false
+	}
+	return n.Obj().Name() == name && (n.Obj().Pkg().Path() == pkgSuffix || strings.HasSuffix(n.Obj().Pkg().Path(), "/"+pkgSuffix))
+}
+
+func isMutex(t types.Type) bool { return isNamed(t, "sync", "Mutex") || isNamed(t, "sync", "RWMutex") }
+
+// atomic cells: values whose methods are the only way in and are synchronised by construction
+func isAtomicCell(t types.Type) bool {
+	if p, ok := t.(*types.Pointer); ok {
+		t = p.Elem()
+	}
+	n, ok := t.(*types.Named)
+	if !ok || n.Obj().Pkg() == nil {
+		return false
+	}
+	switch n.Obj().Pkg().Path() {
+	case "sync", "sync/atomic":
+		return true
+	case modPath + "/faststats":
+		return n.Obj().Name() == "AtomicInt64" || n.Obj().Name() == "AtomicBoolean"
+	}
+	return false
+}
+
+func structOf(t types.Type) (*types.Struct, *types.Named) {
+	if p, ok := t.(*types.Pointer); ok {
+		t = p.Elem()
+	}
+	n, _ := t.(*types.Named)
+	s, _ := t.Underlying().(*types.Struct)
+	return s, n
+}
+
+func inScopePkg(p *types.Package) bool {
+	if p == nil {
+		return false
+	}
+	if p.Path() == modPath {
+		return true
+	}
+	if strings.HasPrefix(p.Path(), modPath+"/") {
+		return scopeDirs[strings.TrimPrefix(p.Path(), modPath+"/")]
+	}
+	return false
+}
+
+var syncMemo = map[types.Type]bool{}
+
+// does the struct contain, by value, a mutex or an atomic cell?
+func hasSync(t types.Type, depth int) bool {
+	if v, ok := syncMemo[t]; ok {
+		return v
+	}
+	if depth > 6 {
+		return false
+	}
+	s, _ := t.Underlying().(*types.Struct)
+	if s == nil {
+		return false
+	}
+	syncMemo[t] = false
+	r := false
+	for i := 0; i < s.NumFields(); i++ {
+		ft := s.Field(i).Type()
+		if isAtomicCell(ft) && !isPointerLike(ft) {
+			r = true
+			break
+		}
+		if _, ok := ft.Underlying().(*types.Struct); ok && hasSync(ft, depth+1) {
+			r = true
+			break
+		}
+		if arr, ok := ft.Underlying().(*types.Slice); ok && isAtomicCell(arr.Elem()) {
+			r = true
+			break
+		}
+	}
+	syncMemo[t] = r
+	return r
+}
+
+func isPointerLike(t types.Type) bool {
+	switch t.Underlying().(type) {
+	case *types.Pointer, *types.Interface, *types.Map, *types.Slice, *types.Chan, *types.Signature:
+		return true
+	}
+	return false
+}
+
+// a shared object type: a named struct declared in scope that contains synchronisation
+func sharedOwner(t types.Type) (string, bool) {
+	if p, ok := t.(*types.Pointer); ok {
+		t = p.Elem()
+	}
+	n, ok := t.(*types.Named)
+	if !ok || !inScopePkg(n.Obj().Pkg()) || isAtomicCell(n) {
+		return "", false
+	}
+	if _, ok := n.Underlying().(*types.Struct); !ok {
+		return "", false
+	}
+	if !hasSync(n, 0) {
+		return "", false
+	}
+	return typeName(n), true
+}
+
+func typeName(n *types.Named) string {
+	p := n.Obj().Pkg().Path()
+	short := "circuit"
+	if p != modPath {
+		short = strings.TrimPrefix(p, modPath+"/")
+	}
+	return short + "." + n.Obj().Name()
+}
+
+// ---------- per-function walk ----------
+type walker struct {
+	a  *analysis
+	f  *funcInfo
+	in *types.Info
+}
+
+func (a *analysis) funcKey(pkg *pkgInfo, d *ast.FuncDecl) string {
+	short := "circuit"
+	if pkg.dir != "." {
+		short = pkg.dir
+	}
+	if d.Recv != nil && len(d.Recv.List) == 1 {
+		t := d.Recv.List[0].Type
+		if s, ok := t.(*ast.StarExpr); ok {
+			t = s.X
+		}
+		if id, ok := t.(*ast.Ident); ok {
+			return short + "." + id.Name + "." + d.Name.Name
+		}
+	}
+	return short + "." + d.Name.Name
+}
+
+func (w *walker) pos(p token.Pos) string {
+	ps := fset.Position(p)
+	rel, err := filepath.Rel(w.a.repo, ps.Filename)
+	if err != nil {
+		rel = ps.Filename
+	}
+	return fmt.Sprintf("%s:%d", rel, ps.Line)
+}
+
+// the lock named by an expression of mutex type: owner type + field name
+func (w *walker) lockName(x ast.Expr) (string, bool) {
+	sel, ok := x.(*ast.SelectorExpr)
+	if !ok {
+		return "", false
+	}
+	tv, ok := w.in.Types[sel.X]
+	if !ok {
+		return "", false
+	}
+	_, n := structOf(tv.Type)
+	if n == nil || !inScopePkg(n.Obj().Pkg()) {
+		return "", false
+	}
+	return typeName(n) + "." + sel.Sel.Name, true
+}
+
+func (w *walker) lockCall(c *ast.CallExpr) (name string, op string, ok bool) {
+	sel, isSel := c.Fun.(*ast.SelectorExpr)
+	if !isSel {
+		return
+	}
+	switch sel.Sel.Name {
+	case "Lock", "Unlock", "RLock", "RUnlock":
+	default:
+		return
+	}
+	tv, has := w.in.Types[sel.X]
+	if !has || !isMutex(tv.Type) {
+		return
+	}
+	n, good := w.lockName(sel.X)
+	if !good {
+		return
+	}
+	return n, sel.Sel.Name, true
+}
+
+func terminates(list []ast.Stmt) bool {
+	if len(list) == 0 {
+		return false
+	}
+	switch s := list[len(list)-1].(type) {
+	case *ast.ReturnStmt:
+		return true
+	case *ast.BranchStmt:
+		return s.Tok == token.BREAK || s.Tok == token.CONTINUE || s.Tok == token.GOTO
+	case *ast.ExprStmt:
+		if c, ok := s.X.(*ast.CallExpr); ok {
+			if id, ok := c.Fun.(*ast.Ident); ok && id.Name == "panic" {
+				return true
+			}
+		}
+	}
+	return false
+}
+
+func (w *walker) block(list []ast.Stmt, ls lockset) lockset {
+	for _, s := range list {
+		ls = w.stmt(s, ls)
+	}
+	return ls
+}
+
+// nested block: what holds afterwards is what holds on every path that falls through
+func (w *walker) nested(list []ast.Stmt, ls lockset) (lockset, bool) {
+	out := w.block(list, ls.copy())
+	return out, terminates(list)
+}
+
+func (w *walker) stmt(s ast.Stmt, ls lockset) lockset {
+	switch x := s.(type) {
+	case nil:
+		return ls
+	case *ast.ExprStmt:
+		if c, ok := x.X.(*ast.CallExpr); ok {
+			if name, op, ok := w.lockCall(c); ok {
+				switch op {
+				case "Lock", "RLock":
+					for h := range ls {
+						if h != name {
+							w.f.acqEdges = append(w.f.acqEdges, edgeRec{h, name, w.f.key, w.pos(c.Pos())})
+						}
+					}
+					if w.f.acquires == nil {
+						w.f.acquires = map[string]token.Pos{}
+					}
+					w.f.acquires[name] = c.Pos()
+					ls = ls.copy()
+					if op == "Lock" {
+						ls[name] = modeW
+					} else if ls[name] < modeR {
+						ls[name] = modeR
+					}
+				default:
+					ls = ls.copy()
+					delete(ls, name)
+				}
+				return ls
+			}
+		}
+		w.expr(x.X, ls, false)
+	case *ast.DeferStmt:
+		if _, op, ok := w.lockCall(x.Call); ok && (op == "Unlock" || op == "RUnlock") {
+			return ls // released at function exit: held for the rest of the body
+		}
+		w.call(x.Call, ls, true)
+	case *ast.GoStmt:
+		w.call(x.Call, ls, true)
+	case *ast.AssignStmt:
+		for _, r := range x.Rhs {
+			w.expr(r, ls, false)
+		}
+		for _, l := range x.Lhs {
+			w.expr(l, ls, x.Tok != token.DEFINE)
+		}
+	case *ast.IncDecStmt:
+		w.expr(x.X, ls, true)
+	case *ast.ReturnStmt:
+		for _, r := range x.Results {
+			w.expr(r, ls, false)
+		}
+	case *ast.SendStmt:
+		w.expr(x.Chan, ls, false)
+		w.expr(x.Value, ls, false)
+	case *ast.DeclStmt:
+		if g, ok := x.Decl.(*ast.GenDecl); ok {
+			for _, sp := range g.Specs {
+				if v, ok := sp.(*ast.ValueSpec); ok {
+					for _, e := range v.Values {
+						w.expr(e, ls, false)
+					}
+				}
+			}
+		}
+	case *ast.BlockStmt:
+		return w.block(x.List, ls)
+	case *ast.LabeledStmt:
+		return w.stmt(x.Stmt, ls)
+	case *ast.IfStmt:
+		ls = w.stmt(x.Init, ls)
+		w.expr(x.Cond, ls, false)
+		a, ta := w.nested(x.Body.List, ls)
+		res := ls
+		if !ta {
+			res = meet(res, a)
+		}
+		if x.Else != nil {
+			var b lockset
+			var tb bool
+			if eb, ok := x.Else.(*ast.BlockStmt); ok {
+				b, tb = w.nested(eb.List, ls)
+			} else {
+				b, tb = w.stmt(x.Else, ls.copy()), false
+			}
+			switch {
+			case ta && tb:
+				res = ls
+			case ta:
+				res = b
+			case tb:
+				res = a
+			default:
+				res = meet(a, b)
+			}
+		}
+		return res
+	case *ast.ForStmt:
+		ls = w.stmt(x.Init, ls)
+		if x.Cond != nil {
+			w.expr(x.Cond, ls, false)
+		}
+		out, _ := w.nested(x.Body.List, ls)
+		w.stmt(x.Post, ls)
+		return meet(ls, out)
+	case *ast.RangeStmt:
+		w.expr(x.X, ls, false)
+		out, _ := w.nested(x.Body.List, ls)
+		return meet(ls, out)
+	case *ast.SwitchStmt:
+		ls = w.stmt(x.Init, ls)
+		if x.Tag != nil {
+			w.expr(x.Tag, ls, false)
+		}
+		return w.clauses(x.Body, ls)
+	case *ast.TypeSwitchStmt:
+		ls = w.stmt(x.Init, ls)
+		w.stmt(x.Assign, ls)
+		return w.clauses(x.Body, ls)
+	case *ast.SelectStmt:
+		return w.clauses(x.Body, ls)
+	}
+	return ls
+}
+
+func (w *walker) clauses(body *ast.BlockStmt, ls lockset) lockset {
+	res := ls
+	for _, c := range body.List {
+		switch cc := c.(type) {
+		case *ast.CaseClause:
+			for _, e := range cc.List {
+				w.expr(e, ls, false)
+			}
+			out, t := w.nested(cc.Body, ls)
+			if !t {
+				res = meet(res, out)
+			}
+		case *ast.CommClause:
+			w.stmt(cc.Comm, ls.copy())
+			out, t := w.nested(cc.Body, ls)
+			if !t {
+				res = meet(res, out)
+			}
+		}
+	}
+	return res
+}
+
+func (w *walker) record(owner, field string, write bool, ls lockset, p token.Pos) {
+	w.f.accesses = append(w.f.accesses, accessRec{Func: w.f.key, Owner: owner, Field: field, Write: write, Locks: join(ls, w.f.entry).list(), Pos: w.pos(p)})
+}
+
+// selector chain x.f1.f2...fk (fields only); returns the steps innermost first
+type step struct {
+	sel  *ast.SelectorExpr
+	recv types.Type // type of the expression the field is selected on
+	fld  *types.Var
+}
+
+func (w *walker) chain(e ast.Expr) (base ast.Expr, steps []step) {
+	for {
+		switch x := e.(type) {
+		case *ast.ParenExpr:
+			e = x.X
+			continue
+		case *ast.SelectorExpr:
+			sel := w.in.Selections[x]
+			if sel == nil || sel.Kind() != types.FieldVal {
+				return e, steps
+			}
+			v, _ := sel.Obj().(*types.Var)
+			steps = append([]step{{x, sel.Recv(), v}}, steps...)
+			e = x.X
+			continue
+		}
+		return e, steps
+	}
+}
+
+// an access path ending in a field: record pointer loads along the way and the final access
+func (w *walker) path(e ast.Expr, ls lockset, write bool) {
+	base, steps := w.chain(e)
+	w.expr(base, ls, false)
+	owner, field := "", ""
+	var pos token.Pos
+	for i, st := range steps {
+		if name, ok := sharedOwner(st.recv); ok {
+			owner, field, pos = name, st.fld.Name(), st.sel.Sel.Pos()
+		} else if owner == "" {
+			// plain data that belongs to nobody we track
+		}
+		ft := st.fld.Type()
+		last := i == len(steps)-1
+		if isAtomicCell(ft) {
+			return // the rest goes through the cell's own methods
+		}
+		if !last && isPointerLike(ft) {
+			if owner != "" {
+				w.record(owner, field, false, ls, pos) // pointer load
+			}
+			owner, field = "", ""
+		}
+		if last && owner != "" {
+			if _, shared := sharedOwner(ft); shared && !isPointerLike(ft) {
+				return // a by-value shared object: reached through its own methods
+			}
+			w.record(owner, field, write, ls, pos)
+		}
+	}
+}
+
+func (w *walker) expr(e ast.Expr, ls lockset, write bool) {
+	switch x := e.(type) {
+	case nil:
+		return
+	case *ast.ParenExpr:
+		w.expr(x.X, ls, write)
+	case *ast.SelectorExpr:
+		sel := w.in.Selections[x]
+		if sel != nil && sel.Kind() == types.FieldVal {
+			w.path(x, ls, write)
+			return
+		}
+		w.expr(x.X, ls, false) // method value or package-qualified identifier
+	case *ast.IndexExpr:
+		w.expr(x.Index, ls, false)
+		// element of a slice/map field: an access to the field itself (map write = write)
+		if tv, ok := w.in.Types[x.X]; ok {
+			if _, isMap := tv.Type.Underlying().(*types.Map); isMap {
+				w.expr(x.X, ls, write)
+				return
+			}
+		}
+		w.expr(x.X, ls, false)
+	case *ast.StarExpr:
+		w.expr(x.X, ls, false)
+	case *ast.UnaryExpr:
+		if x.Op == token.AND {
+			// address taken: the receiver of a pointer method on a by-value field, or an escape
+			if _, steps := w.chain(x.X); len(steps) > 0 {
+				ft := steps[len(steps)-1].fld.Type()
+				if _, shared := sharedOwner(ft); shared || isAtomicCell(ft) {
+					w.path(x.X, ls, false)
+					return
+				}
+				w.path(x.X, ls, true)
+				return
+			}
+		}
+		w.expr(x.X, ls, false)
+	case *ast.BinaryExpr:
+		w.expr(x.X, ls, false)
+		w.expr(x.Y, ls, false)
+	case *ast.CallExpr:
+		w.call(x, ls, false)
+	case *ast.FuncLit:
+		sub := &walker{a: w.a, f: w.f, in: w.in}
+		saved := w.f.entry
+		w.f.entry = lockset{}
+		sub.block(x.Body.List, lockset{}) // may run later, on another goroutine, with nothing held
+		w.f.entry = saved
+	case *ast.CompositeLit:
+		for _, el := range x.Elts {
+			if kv, ok := el.(*ast.KeyValueExpr); ok {
+				w.expr(kv.Value, ls, false)
+			} else {
+				w.expr(el, ls, false)
+			}
+		}
+	case *ast.TypeAssertExpr:
+		w.expr(x.X, ls, false)
+	case *ast.SliceExpr:
+		w.expr(x.X, ls, false)
+		w.expr(x.Low, ls, false)
+		w.expr(x.High, ls, false)
+		w.expr(x.Max, ls, false)
+	case *ast.KeyValueExpr:
+		w.expr(x.Value, ls, false)
+	}
+}
+
+// implementing types of an interface method call, by go/types
+func (w *walker) resolveCall(c *ast.CallExpr) []string {
+	switch fn := c.Fun.(type) {
+	case *ast.Ident:
+		if obj, ok := w.in.Uses[fn].(*types.Func); ok && inScopePkg(obj.Pkg()) {
+			return []string{w.a.keyOfFunc(obj)}
+		}
+	case *ast.SelectorExpr:
+		sel := w.in.Selections[fn]
+		if sel == nil {
+			if obj, ok := w.in.Uses[fn.Sel].(*types.Func); ok && inScopePkg(obj.Pkg()) {
+				return []string{w.a.keyOfFunc(obj)}
+			}
+			return nil
+		}
+		if sel.Kind() != types.MethodVal {
+			return nil
+		}
+		obj := sel.Obj().(*types.Func)
+		recv := sel.Recv()
+		if iface, ok := recv.Underlying().(*types.Interface); ok {
+			// every type in scope that implements the interface (and, when the value came out of a
+			// type assertion on another interface value, that one too)
+			var extra *types.Interface
+			if id, ok := fn.X.(*ast.Ident); ok {
+				if v, ok := w.in.Uses[id].(*types.Var); ok {
+					extra = w.a.assertedFrom[v]
+				}
+			}
+			var out []string
+			if os.Getenv("ACCESS_DEBUG") == "2" {
+				fmt.Fprintln(os.Stderr, "IFACE", src(fn), iface, "extra:", extra, len(w.a.named))
+			}
+			for _, n := range w.a.named {
+				for _, t := range []types.Type{n, types.NewPointer(n)} {
+					if types.Implements(t, iface) && (extra == nil || types.Implements(t, extra)) {
+						if m, _, _ := types.LookupFieldOrMethod(t, true, n.Obj().Pkg(), obj.Name()); m != nil {
+							if mf, ok := m.(*types.Func); ok && inScopePkg(mf.Pkg()) {
+								out = append(out, w.a.keyOfFunc(mf))
+							}
+						}
+						break
+					}
+				}
+			}
+			return out
+		}
+		if inScopePkg(obj.Pkg()) {
+			return []string{w.a.keyOfFunc(obj)}
+		}
+	}
+	return nil
+}
+
+func (a *analysis) keyOfFunc(f *types.Func) string {
+	short := "circuit"
+	if f.Pkg().Path() != modPath {
+		short = strings.TrimPrefix(f.Pkg().Path(), modPath+"/")
+	}
+	sig := f.Type().(*types.Signature)
+	if r := sig.Recv(); r != nil {
+		t := r.Type()
+		if p, ok := t.(*types.Pointer); ok {
+			t = p.Elem()
+		}
+		if n, ok := t.(*types.Named); ok {
+			return short + "." + n.Obj().Name() + "." + f.Name()
+		}
+	}
+	return short + "." + f.Name()
+}
+
+func (w *walker) call(c *ast.CallExpr, ls lockset, deferred bool) {
+	if fl, ok := c.Fun.(*ast.FuncLit); ok {
+		w.expr(fl, ls, false)
+	} else {
+		w.expr(c.Fun, ls, false)
+	}
+	for _, arg := range c.Args {
+		w.expr(arg, ls, false)
+	}
+	if sel, ok := c.Fun.(*ast.SelectorExpr); ok && sel.Sel.Name == "Do" && len(c.Args) == 1 {
+		if tv, ok := w.in.Types[sel.X]; ok && isNamed(tv.Type, "sync", "Once") {
+			if ms, ok := c.Args[0].(*ast.SelectorExpr); ok {
+				if s2 := w.in.Selections[ms]; s2 != nil && s2.Kind() == types.MethodVal {
+					onceFuncs[w.a.keyOfFunc(s2.Obj().(*types.Func))] = true
+				}
+			}
+		}
+	}
+	held := join(ls, w.f.entry)
+	if os.Getenv("ACCESS_DEBUG") != "" {
+		fmt.Fprintln(os.Stderr, "CALL", w.f.key, src(c.Fun), w.resolveCall(c), held.list())
+	}
+	if deferred {
+		held = lockset{} // runs later (go) or at exit (defer): claim nothing
+	}
+	if callees := w.resolveCall(c); len(callees) > 0 {
+		w.f.calls = append(w.f.calls, callSite{callees, held, c.Pos()})
+	}
+}
+
+// functions that only run inside sync.Once.Do(f): published by the Once
+var onceFuncs = map[string]bool{}
+
+var initName = func(key string) bool {
+	parts := strings.Split(key, ".")
+	name := parts[len(parts)-1]
+	return strings.Contains(name, "NotThreadSafe") || strings.HasPrefix(name, "New") || name == "UnmarshalJSON" || name == "init" || name == "Store" || onceFuncs[key]
+}
+
+func (a *analysis) run() {
+	a.assertedFrom = map[*types.Var]*types.Interface{}
+	// named struct types in scope (for interface resolution)
+	for _, p := range a.pkgs {
+		if !inScopePkg(p.tpkg) {
+			continue
+		}
+		sc := p.tpkg.Scope()
+		for _, nm := range sc.Names() {
+			if tn, ok := sc.Lookup(nm).(*types.TypeName); ok {
+				if n, ok := tn.Type().(*types.Named); ok {
+					a.named = append(a.named, n)
+				}
+			}
+		}
+		// variables bound by `v, ok := x.(I)`: remember x's interface type
+		for _, f := range p.files {
+			ast.Inspect(f, func(nd ast.Node) bool {
+				as, ok := nd.(*ast.AssignStmt)
+				if !ok || len(as.Rhs) != 1 || len(as.Lhs) == 0 {
+					return true
+				}
+				ta, ok := as.Rhs[0].(*ast.TypeAssertExpr)
+				if !ok {
+					return true
+				}
+				id, ok := as.Lhs[0].(*ast.Ident)
+				if !ok {
+					return true
+				}
+				v, _ := p.info.Defs[id].(*types.Var)
+				if v == nil {
+					return true
+				}
+				if tv, ok := p.info.Types[ta.X]; ok {
+					if it, ok := tv.Type.Underlying().(*types.Interface); ok {
+						a.assertedFrom[v] = it
+					}
+				}
+				return true
+			})
+		}
+	}
+	sort.Slice(a.named, func(i, j int) bool { return typeName(a.named[i]) < typeName(a.named[j]) })
+	for _, p := range a.pkgs {
+		if !inScopePkg(p.tpkg) {
+			continue
+		}
+		for _, f := range p.files {
+			for _, d := range f.Decls {
+				fd, ok := d.(*ast.FuncDecl)
+				if !ok || fd.Body == nil {
+					continue
+				}
+				if fd.Recv != nil && len(fd.Recv.List) == 1 {
+					if tv, ok := p.info.Types[fd.Recv.List[0].Type]; ok && isAtomicCell(tv.Type) {
+						continue // the atomic cells' own methods
+					}
+				}
+				key := a.funcKey(p, fd)
+				a.funcs[key] = &funcInfo{key: key, decl: fd, pkg: p, exported: fd.Name.IsExported(), entry: lockset{}}
+				a.order = append(a.order, key)
+			}
+		}
+	}
+	sort.Strings(a.order)
+	for round := 0; round < 6; round++ {
+		for _, k := range a.order {
+			f := a.funcs[k]
+			f.accesses, f.calls, f.acqEdges, f.acquires = nil, nil, nil, nil
+			w := &walker{a: a, f: f, in: f.pkg.info}
+			w.block(f.decl.Body.List, lockset{})
+		}
+		// entry locksets of unexported functions: what every call site in scope holds
+		sites := map[string][]lockset{}
+		callers := map[string][]string{}
+		for _, k := range a.order {
+			for _, cs := range a.funcs[k].calls {
+				for _, callee := range cs.callees {
+					sites[callee] = append(sites[callee], cs.held)
+					callers[callee] = append(callers[callee], k)
+				}
+			}
+		}
+		changed := false
+		for _, k := range a.order {
+			f := a.funcs[k]
+			var ne lockset
+			if f.exported || len(sites[k]) == 0 {
+				ne = lockset{}
+			} else {
+				ne = sites[k][0].copy()
+				for _, s := range sites[k][1:] {
+					ne = meet(ne, s)
+				}
+			}
+			if fmt.Sprint(ne.list()) != fmt.Sprint(f.entry.list()) {
+				f.entry = ne
+				changed = true
+			}
+			ni := initName(k)
+			if !ni && !f.exported && len(callers[k]) > 0 {
+				ni = true
+				for _, c := range callers[k] {
+					if !a.funcs[c].init {
+						ni = false
+					}
+				}
+			}
+			if ni != f.init {
+				f.init = ni
+				changed = true
+			}
+		}
+		if !changed && round > 0 {
+			break
+		}
+	}
+}
+
+// locks a function may acquire, directly or through calls
+func (a *analysis) transAcquires() map[string]map[string]bool {
+	acq := map[string]map[string]bool{}
+	for _, k := range a.order {
+		acq[k] = map[string]bool{}
+		for l := range a.funcs[k].acquires {
+			acq[k][l] = true
+		}
+	}
+	for changed := true; changed; {
+		changed = false
+		for _, k := range a.order {
+			for _, cs := range a.funcs[k].calls {
+				for _, callee := range cs.callees {
+					for l := range acq[callee] {
+						if !acq[k][l] {
+							acq[k][l] = true
+							changed = true
+						}
+					}
+				}
+			}
+		}
+	}
+	return acq
+}
+
+func coqStr(s string) string { return "\"" + strings.ReplaceAll(s, "\"", "") + "\"" }
+
 func emitAccess(repo, out, table string) {
-	fmt.Fprintln(os.Stderr, "access mode not built yet")
-	os.Exit(3)
+	a := loadAll(repo)
+	a.run()
+	var accs []accessRec
+	var edges []edgeRec
+	acq := a.transAcquires()
+	for _, k := range a.order {
+		f := a.funcs[k]
+		for _, ac := range f.accesses {
+			ac.Init = f.init
+			accs = append(accs, ac)
+		}
+		edges = append(edges, f.acqEdges...)
+		for _, cs := range f.calls {
+			for _, callee := range cs.callees {
+				for l := range acq[callee] {
+					for h := range cs.held {
+						edges = append(edges, edgeRec{h, l, k + " -> " + callee, fmt.Sprint(fset.Position(cs.pos).Line)})
+					}
+				}
+			}
+		}
+	}
+	// distinct edges
+	seen := map[string]bool{}
+	var dedges []edgeRec
+	for _, e := range edges {
+		key := e.From + ">" + e.To
+		if !seen[key] {
+			seen[key] = true
+			dedges = append(dedges, e)
+		}
+	}
+	sort.Slice(dedges, func(i, j int) bool { return dedges[i].From+dedges[i].To < dedges[j].From+dedges[j].To })
+	var b strings.Builder
+	b.WriteString("(* GENERATED by harness/cmd/translate access from the working tree -- do not edit, never committed. *)\n")
+	b.WriteString("From Coq Require Import String List.\nFrom CV Require Import Conc.Lockset.\nImport ListNotations.\nOpen Scope string_scope.\n\n")
+	b.WriteString("Definition accesses : list access := [\n")
+	for i, ac := range accs {
+		var ls []string
+		for _, l := range ac.Locks {
+			m := "Shared"
+			if l.Excl {
+				m = "Excl"
+			}
+			ls = append(ls, fmt.Sprintf("(%s, %s)", coqStr(l.Lock), m))
+		}
+		sep := ";"
+		if i == len(accs)-1 {
+			sep = ""
+		}
+		fmt.Fprintf(&b, "  mk_access %s %s %s %v [%s] %v%s\n", coqStr(ac.Func), coqStr(ac.Owner+"."+ac.Field), coqStr(ac.Pos), ac.Write, strings.Join(ls, "; "), ac.Init, sep)
+	}
+	b.WriteString("].\n\nDefinition lock_edges : list (string * string) := [\n")
+	for i, e := range dedges {
+		sep := ";"
+		if i == len(dedges)-1 {
+			sep = ""
+		}
+		fmt.Fprintf(&b, "  (%s, %s)%s\n", coqStr(e.From), coqStr(e.To), sep)
+	}
+	b.WriteString("].\n")
+	if out != "" {
+		if err := os.WriteFile(out, []byte(b.String()), 0o644); err != nil {
+			fmt.Fprintln(os.Stderr, err)
+			os.Exit(1)
+		}
+	}
+	if table != "" {
+		nfun := 0
+		for _, k := range a.order {
+			if len(a.funcs[k].accesses) > 0 {
+				nfun++
+			}
+		}
+		j, _ := json.MarshalIndent(map[string]interface{}{"accesses": accs, "edges": dedges, "functions": len(a.order), "functions_with_accesses": nfun}, "", " ")
+		_ = os.WriteFile(table, j, 0o644)
+	}
+	fmt.Printf("access table: %d functions, %d plain-field accesses, %d lock-order edges\n", len(a.order), len(accs), len(dedges))
 }
